@@ -31,6 +31,10 @@ fn pad_block_object(fw: u32, s: String, result: &mut String, code: &FormatCode) 
 //@extract file=rsjsonnet-lang/src/program/eval/format.rs in=impl:Evaluator/fn:do_std_format_codes_object_2 from="let fw = fw as usize" to="if"
 }
 
+// render_int / render_hex are methods of Evaluator that do not touch it: extracted onto an empty receiver
+pub struct Evaluator<'a, 'p>(PhantomData<(&'a (), &'p ())>);
+//@extract file=rsjsonnet-lang/src/program/eval/format.rs impl=Evaluator methods=render_int,render_hex
+
 fn slice_float_def_format(value: f64, value_abs: f64, prec: usize) {
 //@extract file=rsjsonnet-lang/src/program/eval/format.rs in=fn:render_float_def from="let is_neg" to="let mut digits_str"
 }
@@ -177,6 +181,41 @@ mod vharness {
     // render_int / render_hex (digit loops `mag % radix_f`): NOT under contract. CBMC 6.11
     // over-approximates f64 `%` (measured: `(m as f64) % 8.0 == (m % 8) as f64` fails for u16 m),
     // so the digit value and even the `b'0' + digit` overflow check cannot be decided. See DESIGN.md.
+
+    // %d %i %u %o %x %X of the value ZERO.  The digit loops of render_int / render_hex use f64 `%`, which CBMC
+    // over-approximates even for constants (measured: 255.0 % 16.0 == 15.0 FAILS), so non-zero magnitudes cannot
+    // be decided; for zero the functions skip the loop and everything else - sign, '#' prefix, zero padding by
+    // width and by precision - is executed and checked against printf's layout.
+    fn zero_layout(hex: bool) {
+        let (min_chars, min_digits): (usize, usize) = (kani::any(), kani::any());
+        kani::assume(min_chars <= 8 && min_digits <= 8);
+        let (blank, plus, alt, capitals, neg): (bool, bool, bool, bool, bool) = (kani::any(), kani::any(), kani::any(), kani::any(), kani::any());
+        let octal: bool = kani::any();
+        let mut ev = Evaluator(PhantomData);
+        let out = if hex { ev.render_hex(if neg { -0.0 } else { 0.0 }, min_chars, min_digits, blank, plus, alt, capitals) }
+                  else { ev.render_int(neg, 0.0, min_chars, min_digits, blank, plus, if octal { 8 } else { 10 }, if octal && alt { "0" } else { "" }) };
+        let o = out.as_bytes();
+        // expected: [sign] [0x | 0X] zeros "0"   (Python / C: '%#x' % 0 == '0x0', '%#o' % 0 == '0' in C, '0o0' in Python: not pinned here)
+        let sign: Option<u8> = if !hex && neg { Some(b'-') } else if plus { Some(b'+') } else if blank { Some(b' ') } else { None };
+        let prefix: &[u8] = if hex && alt { if capitals { b"0X" } else { b"0x" } } else { b"" };
+        let head = sign.is_some() as usize + prefix.len();
+        let digits = 1usize;
+        let zeros = core::cmp::max(min_digits.saturating_sub(digits), min_chars.saturating_sub(head + digits));
+        assert!(o.len() == head + zeros + digits, "C19:fmt:integer-zero-length-is-sign-prefix-padding-digit");
+        let mut k = 0;
+        if let Some(sg) = sign { assert!(o[0] == sg, "C19:fmt:sign-comes-first"); k = 1; }
+        let mut j = 0; while j < prefix.len() { assert!(o[k + j] == prefix[j], "C19:fmt:alternate-form-prefix-follows-the-sign-and-precedes-the-zero-padding"); j += 1; }
+        k += prefix.len();
+        let mut z = 0; while z < zeros + digits { assert!(o[k + z] == b'0', "C19:fmt:zero-padding-then-the-digit"); z += 1; }
+    }
+    //@harness props=C19,C01 strength=bounded bound="the value 0 (and -0), width and precision 0..8, every flag combination" clause="%x / %X of zero: [sign] then the 0x / 0X prefix of the '#' flag, then zero padding up to the precision or (with the 0 flag) the width, then the digit - printf's layout ('%#x' % 0 is '0x0', '%#06x' % 0 is '0x0000')" timeout=600 replay=fmt_hex_zero
+    #[kani::proof]
+    #[kani::unwind(12)]
+    fn hex_zero_layout() { zero_layout(true); }
+    //@harness props=C19,C01 strength=bounded bound="the value 0, width and precision 0..8, every flag combination, radix 10 and 8" clause="%d / %o of zero: [sign] then zero padding up to the precision or the width, then the digit" timeout=600
+    #[kani::proof]
+    #[kani::unwind(12)]
+    fn int_zero_layout() { zero_layout(false); }
 
     //@harness props=C19,C18 strength=bounded expect=fail clause="canary"
     #[kani::proof]
